@@ -368,7 +368,7 @@ class CertImpl:
         out = self.budgeted(lambda: self.load(doc))
         return ("loaderr", out[1]) if out[0] == "raise" else out
 
-    def run_v1(self, doc, root_hex, guarded=False):
+    def run_v1(self, doc, root_hex, guarded=False, repeats=0):
         """-> ("loaderr", exc) | ("budget", why) | ("result", map) | ("raise", exc: validation raised)
 
         guarded: load under the step budget (documents whose targets have no path to the root)."""
@@ -376,18 +376,32 @@ class CertImpl:
         if ld[0] != "ok":
             return ld
         try:
-            return ("result", ld[1].validate_and_get_values(self.root_v1(root_hex)))
+            root = self.root_v1(root_hex)
+            first = ld[1].validate_and_get_values(root)
+            # the same loaded object validated again must say the same
+            for n in range(repeats):
+                again = ld[1].validate_and_get_values(root)
+                if again != first:
+                    return ("unstable", {"call 1": first, "call %d" % (n + 2): again})
+            return ("result", first)
         except Exception as e:   # noqa
             return ("raise", e)
 
-    def run_v2(self, doc, root_pem, now, guarded=False, tz=None):
+    def run_v2(self, doc, root_pem, now, guarded=False, tz=None, repeats=0):
         ld = self._load(doc, guarded)
         if ld[0] != "ok":
             return ld
         with self.clock(now, tz):
             try:
                 root = self.root_v2(root_pem)
-                return ("result", ld[1].validate_and_get_values(root))
+                first = ld[1].validate_and_get_values(root)
+                if repeats:
+                    n1 = norm_result(first)
+                    for n in range(repeats):
+                        again = norm_result(ld[1].validate_and_get_values(root))
+                        if again != n1:
+                            return ("unstable", {"call 1": n1, "call %d" % (n + 2): again})
+                return ("result", first)
             except Exception as e:   # noqa
                 return ("raise", e)
 
